@@ -227,7 +227,7 @@ theorem waitCore_all_raise (s : State) (c : Cmd) (timed : Bool) (ws2 : List Work
     (hn : countFail rs = s.errq.length) (hne : s.errq ≠ []) (ht : ∀ p ∈ s.errq, p.2 = t) :
     (waitCore s c timed).2 = .err (.worker t) ∧ (waitCore s c timed).1.astate = .default ∧
     (waitCore s c timed).1.closed = s.closed := by
-  obtain ⟨f, ast, cl, ws, q⟩ := s
+  obtain ⟨f, f2, ast, cl, ws, q⟩ := s
   dsimp only at hpoll hrecv hn hne ht
   unfold waitCore
   dsimp only
@@ -235,17 +235,17 @@ theorem waitCore_all_raise (s : State) (c : Cmd) (timed : Bool) (ws2 : List Work
   simp only [Bool.not_true, Bool.and_false, Bool.false_eq_true, if_false]
   cases f
   · simp only [Bool.false_eq_true, if_false, hrecv, List.append_nil]
-    obtain ⟨r1, r2, r3, _⟩ := raiseIfErrors_all { fixed := false, astate := ast, closed := cl, ws := ws2, errq := q }
+    obtain ⟨r1, r2, r3, _⟩ := raiseIfErrors_all { fixed := false, fix2 := f2, astate := ast, closed := cl, ws := ws2, errq := q }
       rs t hn hne ht
-    rcases hr : raiseIfErrors { fixed := false, astate := ast, closed := cl, ws := ws2, errq := q } rs with ⟨s2, o2⟩
+    rcases hr : raiseIfErrors { fixed := false, fix2 := f2, astate := ast, closed := cl, ws := ws2, errq := q } rs with ⟨s2, o2⟩
     rw [hr] at r1 r2 r3
     dsimp only at r1 r2 r3
     subst r1
     exact ⟨rfl, r2, r3⟩
   · simp only [if_true, hrecv, List.append_nil]
-    obtain ⟨r1, r2, r3, _⟩ := raiseIfErrors_all { fixed := true, astate := .default, closed := cl, ws := ws2, errq := q }
+    obtain ⟨r1, r2, r3, _⟩ := raiseIfErrors_all { fixed := true, fix2 := f2, astate := .default, closed := cl, ws := ws2, errq := q }
       rs t hn hne ht
-    rcases hr : raiseIfErrors { fixed := true, astate := .default, closed := cl, ws := ws2, errq := q } rs with ⟨s2, o2⟩
+    rcases hr : raiseIfErrors { fixed := true, fix2 := f2, astate := .default, closed := cl, ws := ws2, errq := q } rs with ⟨s2, o2⟩
     rw [hr] at r1 r2 r3
     dsimp only at r1 r2 r3
     subst r1
